@@ -179,16 +179,33 @@ func computeDependenciesAndInclusion(funcs []*provider, initF *provider) ([]*pro
 	}
 
 	debugln("attempt to eliminate additional providers")
-	for _, fm := range proposeEliminations(funcs) {
-		if fm.d.excluded != nil {
-			continue
-		}
-		if fm.cluster != 0 {
-			if fm.d.clusterMembers != nil {
-				tryWithout(fm.d.clusterMembers...)
+	// Eliminating a provider can leave the providers that were kept only for its
+	// sake without any user, so propose again until nothing more can be removed.
+	countExcluded := func() int {
+		var n int
+		for _, fm := range funcs {
+			if fm.d.excluded != nil {
+				n++
 			}
-		} else {
-			tryWithout(fm)
+		}
+		return n
+	}
+	for {
+		before := countExcluded()
+		for _, fm := range proposeEliminations(funcs) {
+			if fm.d.excluded != nil {
+				continue
+			}
+			if fm.cluster != 0 {
+				if fm.d.clusterMembers != nil {
+					tryWithout(fm.d.clusterMembers...)
+				}
+			} else {
+				tryWithout(fm)
+			}
+		}
+		if countExcluded() == before {
+			break
 		}
 	}
 
